@@ -106,3 +106,28 @@ Qed.
 
 Theorem cseq_ExtOK : ExtOK parse_cseq obs_cseq (fun _ _ => True).
 Proof. exact (parse_ExtOK cs_iter obs_cseq cs_IterExt). Qed.
+
+(* Content-Length: ParseUIntVal plus a post-check that only looks at the finished value *)
+Theorem clen_ExtOK : ExtOK parse_clen obs_uint (fun _ _ => True).
+Proof.
+  intros p x i s _ Hi. unfold parse_clen, parse_uint, parse.
+  assert (Hlen : i = nnat (length (rev (firstn (N.to_nat i) p)))).
+  { rewrite rev_length, firstn_length. unfold nnat in *. lia. }
+  pose proof (run_ext ui_iter obs_uint ui_IterExt (skipn (N.to_nat i) p) (rev (firstn (N.to_nat i) p)) x i s Hlen) as H.
+  rewrite (zinit_app p x i Hi).
+  replace (zinit p i) with (rev (firstn (N.to_nat i) p), skipn (N.to_nat i) p) by reflexivity.
+  destruct (run ui_iter (rev (firstn (N.to_nat i) p)) (skipn (N.to_nat i) p) i 0 s) as [o e s'| |]; auto.
+  destruct e; try (rewrite H; apply req_refl).
+  - (* EOk: the same post-check on the same state *)
+    rewrite H. destruct (_ || _); apply req_refl.
+  - (* EMore *)
+    destruct H as (k & Hk & -> & Hrq). rewrite skipn_length in Hk.
+    split; [exact I|]. split; [unfold nnat in *; lia|].
+    assert (Hb : (N.to_nat i + k <= length (p ++ x))%nat) by (rewrite app_length; unfold nnat in *; lia).
+    rewrite (zinit_advance (p ++ x) i k Hb).
+    assert (E1 : firstn (N.to_nat i) (p ++ x) = firstn (N.to_nat i) p).
+    { rewrite firstn_app. replace (N.to_nat i - length p)%nat with 0%nat by (unfold nnat in *; lia). cbn. now rewrite app_nil_r. }
+    assert (E2 : skipn (N.to_nat i) (p ++ x) = skipn (N.to_nat i) p ++ x).
+    { rewrite skipn_app. replace (N.to_nat i - length p)%nat with 0%nat by (unfold nnat in *; lia). reflexivity. }
+    rewrite E1, E2, Hrq. apply req_refl.
+Qed.
